@@ -54,7 +54,33 @@ def c10(tier, seed):
         J(SW, "VerifK10IteratorCaches"),
         J(SHARED, "VerifK10SharedIterator"),
         J(CMDS, "VerifK10Execute", timeout_ms=120000),
+    ] + c10_engine(tier)
+
+
+def c10_engine(tier):
+    """Whole engines on a HIGHER_CONSISTENCY request over a datastore that asserts, on EVERY read it receives, that
+    the read options carry the preference (that is what makes the cache layers step aside): default Check engine,
+    weighted-graph Check engine, ListObjects (classic and weighted reverse expansion, embedded Checks)."""
+    q = tier == "quick"
+    e = dict(timeout_ms=60000, unwind=64, max_paths=8000 if q else 100000, hc=1, invalid=0, subjects="min")
+    V2 = "pkg/server/commands/v2breaking"
+    jobs = [
+        J(GRAPH, "VerifE01Check", model="wildcard", maxcands=10, **e),
+        J(GRAPH, "VerifE01Check", model="userset", maxcands=10, **e),
+        J(V2, "VerifE03WeightedCheck", model="ttu", maxcands=10, req=17, **e),  # folder:1#viewer@user:1 (recursive TTU)
+        J(CMDS, "VerifE05ListObjects", model="two_hop", maxcands=12, lo_opt=0, req=8, **e),  # document#viewer@user:1
+        J(CMDS, "VerifE05ListObjects", model="exclusion", maxcands=12, lo_opt=0, **e),
     ]
+    if not q:
+        jobs += [
+            J(GRAPH, "VerifE01Check", model="ttu", maxcands=10, **e),
+            J(V2, "VerifE03WeightedCheck", model="userset", maxcands=10, **e),
+            J(V2, "VerifE03WeightedCheck", model="ttu", maxcands=10, job_timeout_s=3000, **e),
+            J(CMDS, "VerifE05ListObjects", model="two_hop", maxcands=12, lo_opt=0, **e),
+            J(CMDS, "VerifE05ListObjects", model="two_hop", maxcands=12, lo_opt=1, **e),
+            J(CMDS, "VerifE05ListObjects", model="userset_ttu_mix", maxcands=12, lo_opt=1, **e),
+        ]
+    return jobs
 
 
 def c11(tier, seed):
@@ -87,6 +113,13 @@ def c11(tier, seed):
     jobs.append(J(CMDS, "VerifK11IteratorCache", impl=0, api=1, page=1, grid=1, ownttl=1, **big))
     if not q:
         jobs.append(J(CMDS, "VerifK11QueryCache", page=1, grid=1, jitter=10, qttl=40, **big))
+    # whole engine behind the real CachedCheckResolver: the same request was answered before a write (the store it saw
+    # differs in one tuple) and an invalidation run that started after the write has completed (the request carries its
+    # time): nothing cached before may be used - neither the top-level entry nor the entries of dispatched sub-problems.
+    # Request 2 = document:1#viewer@user:1; written tuple 0 = group:1#member@user:1, 10 = document:1#viewer@group:1#member
+    for w in ((0, 10) if q else (0, 2, 4, 8, 10, 11)):
+        jobs.append(J(GRAPH, "VerifE01Check", model="userset", maxcands=16, invalid=0, subjects="min", prior=1, qcache=1, inval=1,
+                      priorreq=2, req=2, written=w, timeout_ms=60000, unwind=64, max_paths=20000))
     return jobs
 
 
@@ -108,7 +141,7 @@ SPEC = {
     },
     "C10": {
         "jobs": c10,
-        "level_text": "bounded symbolic execution of every cache entry point with an ADVERSARIAL harness cache (every Get, for any key, returns a perfectly valid looking stale entry and is recorded) and a recording inner reader / delegate: CachedCheckResolver.ResolveCheck, check.Resolver.isCached (weighted-graph engine), CachedDatastore and CachedTupleReader Read / ReadUsersetTuples / ReadStartingWithUser, sharediterator.IteratorDatastore (three queries, storage pre-warmed with a live shared iterator over the old result), and CheckQuery.Execute with all 8 combinations of query-cache / iterator-cache / shared-iterator flags (cache controller = recording fake, resolver seam issuing one datastore query through the request's storage wrapper). With HIGHER_CONSISTENCY: no cache Get happens, nothing is written to the cache, the cache controller is not asked for an invalidation time (the request carries the zero time), the inner reader / delegate is asked exactly once WITH the HIGHER_CONSISTENCY preference, and the returned response / iterator object / error is the inner one (through Execute: the datastore's current tuple). With the other preferences the adversarial entry is what gets served (the fake is effective)",
+        "level_text": "bounded symbolic execution of every cache entry point with an ADVERSARIAL harness cache (every Get, for any key, returns a perfectly valid looking stale entry and is recorded) and a recording inner reader / delegate: CachedCheckResolver.ResolveCheck, check.Resolver.isCached (weighted-graph engine), CachedDatastore and CachedTupleReader Read / ReadUsersetTuples / ReadStartingWithUser, sharediterator.IteratorDatastore (three queries, storage pre-warmed with a live shared iterator over the old result), and CheckQuery.Execute with all 8 combinations of query-cache / iterator-cache / shared-iterator flags (cache controller = recording fake, resolver seam issuing one datastore query through the request's storage wrapper). With HIGHER_CONSISTENCY: no cache Get happens, nothing is written to the cache, the cache controller is not asked for an invalidation time (the request carries the zero time), the inner reader / delegate is asked exactly once WITH the HIGHER_CONSISTENCY preference, and the returned response / iterator object / error is the inner one (through Execute: the datastore's current tuple). With the other preferences the adversarial entry is what gets served (the fake is effective); (E) the whole default Check engine, the weighted-graph Check engine and ListObjects (both reverse expansions, embedded Checks) run on a HIGHER_CONSISTENCY request over a symbolic store whose reader asserts on every Read / ReadUserTuple / ReadUsersetTuples / ReadStartingWithUser it receives that the options carry the preference - a call site that forgets to pass it on would read through the caches",
         "level_note": "bounds: 3 consistency preferences x 3 query kinds x 2 iterator-cache implementations x datastore success/failure; tuple users <= 2 symbolic ASCII bytes; shared iterator storage warm/cold; Execute: model 'direct', one request; ListObjects / ListUsers / BatchCheck entry points reuse these layers but their own dispatch of the preference is not executed here; metrics conversions (float64 of durations) are pinned by stubs; trusted: go/ssa, engine semantics incl. sync.Map / singleflight / goroutine model, z3",
         "assumptions": [
             "resolvers pass the request's consistency preference to the tuple reader (what the harness resolver seam does; the real LocalChecker is C01's subject)",
@@ -122,7 +155,10 @@ SPEC = {
     },
     "C11": {
         "jobs": c11,
-        "level_text": "bounded symbolic execution of a whole staleness timeline over the engine's abstract clock (every time.Now() is a fresh non-decreasing symbolic instant) with a harness cache that models expiry exactly like InMemoryLRUCache (Set at s with ttl is visible at g iff g < s + min(ttl, 1 year)): [optional older ChangelogCacheEntry] -> an entry is populated by the REAL code (CachedCheckResolver miss; or CachedDatastore / CachedTupleReader query consumed, stopped and flushed by the real background goroutine) -> a write commits with changelog timestamp tw after the entry was stored -> the REAL InMemoryCacheController.InvalidateIfNeeded / findChangesAndInvalidateIfNecessary (goroutines, sync.Map, select, 1 s deadline) runs after the write with a harness ReadChanges returning the most recent page (1..2 changes with descending symbolic timestamps, the write among them or older than the page) and completes -> a request evaluates the REAL predicates (DetermineInvalidationTime + NewResolveCheckRequest + CachedCheckResolver.ResolveCheck; findInCache/isInvalidAt via CachedDatastore; tryGetFromCache via CachedTupleReader). Shown for the shipped defaults (TTL jitter 0, entries and controller use the same iterator TTL), for arbitrary TTLs and arbitrary instants: the pre-write entry is never served, the run never fabricates an entry, a run whose ReadChanges fails condemns all iterator entries of the store, a run that hits its own deadline changes nothing; storage.JitteredTTL stays within [base, base + base*min(pct,100)/100] and is the identity for pct = 0 (10 enumerated bases, symbolic percentage and random draw). Expected-violation configurations are kept as separate jobs on a replayable clock grid (native replay with real sleeps against the real clock)",
+        # natively these harnesses run on the real clock with really random jitter (several trials): good to confirm a
+        # counterexample, not a replay of a solver model of a clean path
+        "no_witness": ["VerifK11QueryCache", "VerifK11IteratorCache", "VerifK11JitteredTTL"],
+        "level_text": "bounded symbolic execution of a whole staleness timeline over the engine's abstract clock (every time.Now() is a fresh non-decreasing symbolic instant) with a harness cache that models expiry exactly like InMemoryLRUCache (Set at s with ttl is visible at g iff g < s + min(ttl, 1 year)): [optional older ChangelogCacheEntry] -> an entry is populated by the REAL code (CachedCheckResolver miss; or CachedDatastore / CachedTupleReader query consumed, stopped and flushed by the real background goroutine) -> a write commits with changelog timestamp tw after the entry was stored -> the REAL InMemoryCacheController.InvalidateIfNeeded / findChangesAndInvalidateIfNecessary (goroutines, sync.Map, select, 1 s deadline) runs after the write with a harness ReadChanges returning the most recent page (1..2 changes with descending symbolic timestamps, the write among them or older than the page) and completes -> a request evaluates the REAL predicates (DetermineInvalidationTime + NewResolveCheckRequest + CachedCheckResolver.ResolveCheck; findInCache/isInvalidAt via CachedDatastore; tryGetFromCache via CachedTupleReader). Shown for the shipped defaults (TTL jitter 0, entries and controller use the same iterator TTL), for arbitrary TTLs and arbitrary instants: the pre-write entry is never served, the run never fabricates an entry, a run whose ReadChanges fails condemns all iterator entries of the store, a run that hits its own deadline changes nothing; storage.JitteredTTL stays within [base, base + base*min(pct,100)/100] and is the identity for pct = 0 (10 enumerated bases, symbolic percentage and random draw). Expected-violation configurations are kept as separate jobs on a replayable clock grid (native replay with real sleeps against the real clock); (E) the whole default Check engine behind the real CachedCheckResolver over a symbolic store: a request answered before a write (store differing in one tuple) must not influence the same request carrying the completion time of a later invalidation run, at the top level or in any dispatched sub-problem",
         "level_note": "bounds: one entry, one write, one completed invalidation run, one later request; changelog page of 1 (quick) / 1..2 changes (same or unrelated tuple, write/delete; the write first, second, or older than the page); 3 query kinds x 2 iterator-cache implementations, wildcard and plain user writes; TTLs symbolic in 1 ns..2^40 ns; controller interval concrete (quick) / symbolic; every branch on instants is explored as a separate path (fork-all), 30..500 paths per job; a reader's look-ups (entry, then markers) are taken to happen at one instant (without this the solver finds the boundary race 'entry read just before its expiry, marker read just after the marker's expiry'); findings jobs: TTL (K+1/2) ms with K=20 (40), steps on a 1 ms grid, jitter 100 % (10 %); trusted: go/ssa, engine semantics incl. goroutine / sync / context model, abstract single clock, z3",
         "assumptions": [
             "single clock: changelog timestamps and time.Now() are the same clock, a change is visible to ReadChanges only at or after its timestamp, and an earlier run's ChangelogCacheEntry.LastModified precedes the write",
